@@ -25,8 +25,8 @@ structure OpenReq where
 
 /-- What the system does around the descriptor table. -/
 structure Oracle (W : Type) where
-  /-- `VirtualSystem::resolve_file` + the new open file description: all of `open` that precedes the
-      allocation of a descriptor (creation and truncation happen here, whatever comes after) -/
+  /-- `VirtualSystem::resolve_file` + the new open file description: creation, truncation and the
+      errno of `open`; only reached when a descriptor is available -/
   resolve : W → OpenReq → W × Except Errno Nat
   /-- the anonymous file of `open_tmpfile` and its open file description -/
   tmpfile : W → W × Nat
@@ -114,14 +114,14 @@ variable {W : Type}
 def allocLowest (o : Oracle W) (w : W) (t : FdTable) (ofd : Nat) : W × Option (Fd × FdTable) :=
   ((o.deny w).1, t.openFdGe 0 { ofd := ofd, cloexec := false } (o.deny w).2)
 
-/-- `Open::open` of the virtual system: resolve (side effects), then allocate -/
+/-- `Open::open` of the virtual system: first `has_unused_fd` (EMFILE before anything happens to the
+    file system; the oracle may strike here too), then resolve (creation, truncation, errno), then
+    the lowest free descriptor, no flags -/
 def sysOpen (o : Oracle W) (w : W) (t : FdTable) (req : OpenReq) : W × FdTable × Except Errno Fd :=
-  match o.resolve w req with
+  if (o.deny w).2 || !t.inLimit (t.minUnused 0) then ((o.deny w).1, t, .error .EMFILE) else
+  match o.resolve (o.deny w).1 req with
   | (w1, .error e) => (w1, t, .error e)
-  | (w1, .ok ofd) =>
-    match allocLowest o w1 t ofd with
-    | (w2, none) => (w2, t, .error .EMFILE)
-    | (w2, some (fd, t')) => (w2, t', .ok fd)
+  | (w1, .ok ofd) => (w1, t.put (t.minUnused 0) (some { ofd := ofd, cloexec := false }), .ok (t.minUnused 0))
 
 /-- `open_file` -/
 def openFile (o : Oracle W) (w : W) (t : FdTable) (args : OpenArgs) (path : Nat) : R W FdSpec :=
@@ -283,13 +283,12 @@ def moveFdInternal (o : Oracle W) (w : W) (t : FdTable) (src : Fd) : W × FdTabl
   | .error _ => ((o.deny w).1, t.close src, none)
 
 /-- `yash-builtin/src/source/semantics.rs` `open_file`: `open(path, ReadOnly, O_CLOEXEC)` on the
-    lowest free descriptor, then `move_fd_internal` -/
+    lowest free descriptor (EMFILE checked first), then `move_fd_internal` -/
 def openScript (o : Oracle W) (w : W) (t : FdTable) (path : Nat) : W × FdTable × Option Fd :=
-  match o.resolve w { path := path, args := fileIn } with
+  if (o.deny w).2 || !t.inLimit (t.minUnused 0) then ((o.deny w).1, t, none) else
+  match o.resolve (o.deny w).1 { path := path, args := fileIn } with
   | (w1, .error _) => (w1, t, none)
   | (w1, .ok ofd) =>
-    match t.openFdGe 0 { ofd := ofd, cloexec := true } (o.deny w1).2 with
-    | none => ((o.deny w1).1, t, none)
-    | some (fd, t1) => moveFdInternal o (o.deny w1).1 t1 fd
+    moveFdInternal o w1 (t.put (t.minUnused 0) (some { ofd := ofd, cloexec := true })) (t.minUnused 0)
 
 end YashModel.Redir
